@@ -160,7 +160,7 @@ BusFor(prog, X) == IF X.decls # <<>> THEN X.decls ELSE IF prog.rom = "high" THEN
 Dead(P) == P.fail \/ P.unspec
 \* at / offs / rel: run address, storage offset and relocation flag seen by each node of the current pass
 PInit(X) == [run |-> -1, off |-> -1, defs |-> X.defs, fail |-> FALSE, unspec |-> X.unspec, why |-> X.why,
-             img |-> <<>>, pred |-> <<>>, reloc |-> FALSE, at |-> <<>>, at1 |-> <<>>, offs |-> <<>>, rel |-> <<>>, drift |-> FALSE,
+             img |-> <<>>, pred |-> <<>>, reloc |-> FALSE, at |-> <<>>, at1 |-> <<>>, offs |-> <<>>, rel |-> <<>>, drift |-> FALSE, ramstar |-> FALSE, sawat |-> FALSE,
              ips |-> <<>>]     \* ips: <<offset, byte>> pairs re-emitted from included patches, in order (C13)
 Note(P) == IF Dead(P) THEN P ELSE [P EXCEPT !.at = Append(@, P.run), !.offs = Append(@, P.off), !.rel = Append(@, P.reloc)]
 PFail(P, why) == IF P.fail \/ P.unspec THEN P ELSE [P EXCEPT !.fail = TRUE, !.why = why]
@@ -216,8 +216,15 @@ StepLabel(node, scopes, bus, P, tables) ==
             ELSE IF t.v < 0 \/ t.v > 16777215 THEN PUnspec(P, "position outside 24 bits")
             ELSE IF Class(bus, t.v) = "none" THEN PFail(P, "position in an unmapped bank")
             ELSE IF Class(bus, t.v) = "oow" THEN PUnspec(P, "position in a ROM bank outside its window")
-            ELSE IF node.k = "stareq" /\ Class(bus, t.v) = "ram" THEN PUnspec(P, "*= to RAM")
-            ELSE [P EXCEPT !.run = t.v, !.pred = Append(@, 0)]
+            \* a *= whose target has no storage offset (RAM): the statements give it no offset to move to.  After an
+            \* earlier position the only reading that writes "no other offset" keeps the storage offset (the bytes follow
+            \* the previous ones, assembled for the RAM address, as under @=); refusing is allowed too (outcome "either")
+            ELSE IF node.k = "stareq" /\ Class(bus, t.v) = "ram"
+                 THEN IF P.run < 0 THEN PUnspec(P, "*= to RAM before any other position")
+                      \* after an @= the pinned tree resumes storing at the offset of the @= target: no statement describes that
+                      ELSE IF P.sawat THEN PUnspec(P, "*= to RAM after an @=")
+                      ELSE [P EXCEPT !.run = t.v, !.pred = Append(@, 0), !.ramstar = TRUE]
+            ELSE [P EXCEPT !.run = t.v, !.pred = Append(@, 0), !.sawat = (node.k = "ateq")]
 
 \* the symbol pass: `=` definitions and deferred macro arguments, in node order
 StepSymbol(node, scopes, bus, P) ==
@@ -295,6 +302,7 @@ StepEmit(node, i, scopes, bus, P, phaseCheck, tables) ==
       [] node.k \in {"stareq", "ateq"} ->
             LET t == MoveTarget(node, scopes, P.defs) IN
             IF ~t.ok THEN PFail(P, "position move over an undefined name")
+            ELSE IF node.k = "stareq" /\ Class(bus, t.v) = "ram" THEN [P EXCEPT !.run = t.v, !.reloc = FALSE]
             ELSE IF node.k = "stareq" THEN [P EXCEPT !.run = t.v, !.off = Physical(bus, t.v), !.reloc = FALSE]
             ELSE [P EXCEPT !.run = t.v, !.reloc = TRUE]
 
@@ -328,7 +336,7 @@ Run(prog, callSite, phaseCheck) ==
                          ELSE IF P3.ips # <<>> /\ clash THEN "unspec"
                          \* sizes differed between the passes but no position-derived symbol moved: the emitted
                          \* bytes (widths by the values at emission, C01) are right, and refusing is allowed too (C02)
-                         ELSE IF P3.drift /\ phaseCheck THEN "either" ELSE "ok",
+                         ELSE IF (P3.drift /\ phaseCheck) \/ P3.ramstar THEN "either" ELSE "ok",
              img |-> P3.img, ips |-> P3.ips, labels |-> LabelsOf(X.scopes, P3.defs),
              why |-> IF ~P3.unspec /\ ~P3.fail /\ P3.ips # <<>> /\ clash THEN "included patch overlaps the program's own output" ELSE P3.why,
              nodes |-> X.nodes, scopes |-> X.scopes,
